@@ -82,6 +82,10 @@ def op_grid():
     G.append(("get_many", (["K", "k2", "zz"],), {}))
     G.append(("gets_many", (["K", "zz"],), {}))
     G.append(("get_many", ([],), {}))
+    # key collections that can be read only once (generator, iterator, map object)
+    for m in ("get_many", "gets_many", "delete_many"):
+        for coll in ("GEN", "ITER", "MAP"):
+            G.append((m, (coll,), {"noreply": False} if m == "delete_many" else {}))
     # mapping protocol
     G.append(("__getitem__", ("K",), {}))
     G.append(("__setitem__", ("K", "VAL"), {}))
@@ -156,6 +160,9 @@ def main(argv):
 
                         def sub(a):
                             if a == "K": return K
+                            if a == "GEN": return (k_ for k_ in [K, "zz"])
+                            if a == "ITER": return iter([K, "zz"])
+                            if a == "MAP": return map(str, [K, "zz"])
                             if a == "VAL": return VAL
                             if a == "CAS": return cas_tok
                             if isinstance(a, dict): return {sub(k): sub(v) for k, v in a.items()}
